@@ -91,7 +91,7 @@ def programs(ctx):
         [[C("c2")], [R("c2")], [F("c1"), C("c1")]],
         [[C("c2"), C("c2")], [F("c1")], [R("c2"), R("c1"), R("c9")]],
     ]
-    cb = 1500 if ctx.quick else 20000     # hand-picked race programs are explored (nearly) exhaustively
+    cb = 1500 if ctx.quick else 8000      # hand-picked race programs are explored (nearly) exhaustively
     for i, c in enumerate(core):
         progs.append({"id": "core-%d" % i, "threads": c, "budget": cb})
     # the promised client has two references (c2, c0) used by different threads
@@ -138,11 +138,27 @@ def programs(ctx):
     return progs
 
 
-def validate_traces(ctx, sd, tf, module, cfg):
+def validate_traces(ctx, sd, tf, module, cfg, chunk=250000):
     """TLC validates every execution in the trace file against the abstract spec; a rejected execution is
-    reported, removed, and the rest re-checked.  Returns (rejected, states)."""
+    reported, removed, and the rest re-checked.  Returns (rejected, states).  Large trace files are validated
+    in chunks of whole executions (TLC keeps every state of a trace in memory)."""
     with open(tf) as f:
-        lines = f.readlines()
+        all_lines = f.readlines()
+    if len(all_lines) > chunk:
+        rejected = states = 0
+        start = 0
+        while start < len(all_lines) and rejected < 8:
+            end = min(start + chunk, len(all_lines))
+            while end < len(all_lines) and '"ev":"reset"' not in all_lines[end]:
+                end += 1
+            with open(tf, "w") as f:
+                f.writelines(all_lines[start:end])
+            r2, s2 = validate_traces(ctx, sd, tf, module, cfg, chunk=10 ** 12)
+            rejected += r2
+            states += s2
+            start = end
+        return rejected, states
+    lines = all_lines
     rejected = 0
     states = 0
     while lines:
